@@ -7,7 +7,7 @@ import importlib
 import json
 import sys
 
-sys.path.insert(0, "/repo")
+import engine  # noqa: E402,F401  (puts the repository on sys.path)
 
 
 def replay(rec, witness=False):
